@@ -367,6 +367,26 @@ fn gen_program(rng: &mut Rng, fns: &[md::Spec], nthreads: usize, ops_per_thread:
     progs
 }
 
+/// CALLS-ONLY programs (no invalidation, no statistics reset): every thread calls the hot cache with argument
+/// indices from one small set, so that lookups race with the two halves of another thread's store of the SAME key
+/// and stores of different keys race with each other.  Nothing but an eviction can remove an entry in such a run,
+/// which is what the C03 / C14 monitors of these runs rely on.
+fn gen_calls_only(rng: &mut Rng, fns: &[md::Spec], nthreads: usize, ops_per_thread: usize) -> Vec<Vec<String>> {
+    let hot = &fns[0];
+    let nk = hot.limit.map(|l| l + 1).unwrap_or(2) as u64;
+    let mut progs = Vec::new();
+    for t in 0..nthreads {
+        let mut p = Vec::new();
+        for i in 0..ops_per_thread {
+            // thread 0 walks the keys in order, the others start from a random one: same-key collisions are frequent
+            let j = if t == 0 { i as u64 % nk } else { rng.below(nk) };
+            p.push(call_op(hot, j as usize));
+        }
+        progs.push(p);
+    }
+    progs
+}
+
 fn probe_ops(rng: &mut Rng, fns: &[md::Spec], n: usize) -> Vec<String> {
     let mut ops = Vec::new();
     for _ in 0..n {
@@ -456,7 +476,18 @@ fn main() {
         // 2 or 3 functions, prefer ones sharing a tag
         let mut fns: Vec<md::Spec> = Vec::new();
         // the hot cache: one with an entry limit (alternating sync global / async)
-        let hot_pool: Vec<&md::Spec> = usable.iter().filter(|s| s.limit.map(|l| l <= 2).unwrap_or(false) && s.is_async == (pi % 3 == 1)).collect();
+        // every fourth program is CALLS-ONLY; its hot cache alternates between a PLAIN one (no limit / ttl / max_memory,
+        // any policy: nothing may ever remove an entry) and a limited one without ttl
+        let calls_only = pi % 4 == 3;
+        let variant = (seed as usize).wrapping_add(pi / 4);
+        let plain_hot = calls_only && variant % 2 == 0;
+        let hot_pool: Vec<&md::Spec> = if plain_hot {
+            usable.iter().filter(|s| s.limit.is_none() && s.max_mem.is_none() && s.ttl.is_none() && !s.is_result && s.is_async == ((variant / 2) % 2 == 1)).collect()
+        } else if calls_only {
+            usable.iter().filter(|s| s.limit.map(|l| l <= 2).unwrap_or(false) && s.ttl.is_none() && s.max_mem.is_none() && !s.is_result && s.is_async == ((variant / 2) % 2 == 1)).collect()
+        } else {
+            usable.iter().filter(|s| s.limit.map(|l| l <= 2).unwrap_or(false) && s.is_async == (pi % 3 == 1)).collect()
+        };
         fns.push((*rng.pick(&hot_pool)).clone());
         while fns.len() < 2 + (pi % 2) {
             let s = rng.pick(&usable).clone();
@@ -474,7 +505,11 @@ fn main() {
         }
         md::rt::NEXT_TL.with(|n| n.set(None));
         let nthreads = 2 + (pi % 3 == 2) as usize;
-        let progs = gen_program(&mut rng, &fns, nthreads, if nthreads == 2 { 3 } else { 2 });
+        let progs = if calls_only {
+            gen_calls_only(&mut rng, &fns, nthreads, if nthreads == 2 { 3 } else { 2 })
+        } else {
+            gen_program(&mut rng, &fns, nthreads, if nthreads == 2 { 3 } else { 2 })
+        };
         let ptxt: Vec<String> = progs.iter().map(|p| p.join(";")).collect();
         let ftxt: Vec<String> = fns.iter().map(|f| f.idx.to_string()).collect();
         println!("P|{}|{}", ftxt.join(","), ptxt.join("||"));
